@@ -514,8 +514,8 @@ def summary(path, with_adsorbates):
                 out["adsorbates"][a.name] = _freeze([sorted(a.alias), a.properties])
         for iso in pgsql.isotherms_from_db(db_path=path, verbose=False):
             d = iso.to_dict()
-            if isinstance(d.get("material"), dict):
-                d["material"] = d["material"]["name"]
+            # (the material as the reader hands it over with the isotherm: name AND properties - resolved by the library
+            # through its in-memory list, so what a failed call leaves in that list shows here)
             if isinstance(iso, pygaps.PointIsotherm):
                 data = {c: iso.data_raw[c].tolist() for c in iso.data_raw.columns}
             elif isinstance(iso, pygaps.ModelIsotherm):
@@ -635,13 +635,13 @@ def check_fault_enumeration(desc, ctx):
             runs += [(kind, k) for k in range(N)]
         for kind in F.KILL_STMT_KINDS:
             runs += [(kind, k) for k in range(N)]
-        runs += [(kind, j) for kind in F.KILL_COMMIT_KINDS for j in range(n_commits)]  # one commit unless the code changed
+        runs += [(kind, j) for kind in F.KILL_COMMIT_KINDS + (F.RAISE_COMMIT_KIND,) for j in range(n_commits)]  # one commit unless the code changed
         if only:
             runs = [(only[0], only[1])]
 
         first_known = None
         for kind, k in runs:
-            stmt_kind = kind not in F.KILL_COMMIT_KINDS
+            stmt_kind = kind not in F.KILL_COMMIT_KINDS and kind != F.RAISE_COMMIT_KIND
             where = (f"{variant} [{cclass}] fault {kind}" + (f" at statement {k}/{N} ({_stmt(log, k)})" if stmt_kind
                                                              else (f" (commit {k} of {n_commits})" if n_commits != 1 else "")))
             try:
@@ -674,7 +674,7 @@ def _one_fault(env, factory, kind, k, N, post_img, ref_same, ref_fresh, pre_sum,
     path = env.path
     env.restore_start()
     call = factory()
-    raised = kind in F.RAISE_KINDS
+    raised = kind in F.RAISE_KINDS or kind == F.RAISE_COMMIT_KIND
     if raised:
         with F.installed(kind, k) as plan:
             outcome, err = _call(call)
